@@ -252,8 +252,12 @@ class FakePool:
         self.shutdown()
 
     def shutdown(self, wait: bool = True, cancel_futures: bool = False) -> None:
-        # shutdown(wait=True) joins the workers: everything still in flight finishes
+        # shutdown(wait=True) joins the workers: everything still in flight finishes - and the calling thread (in an
+        # AsyncDAG the event-loop thread) is blocked until then
         if wait:
+            mon = self.world.monitor
+            if self.world.in_flight and mon is not None:
+                mon.blocked(set(self.world.in_flight), "shutdown", ALL_COMPLETED)
             self.world.drain_at_shutdown()
 
     def submit(self, fn: Callable[..., Any], *args: Any, **kwargs: Any) -> FakeFuture:
@@ -351,7 +355,7 @@ class FakeAsyncio:
         w = self._world
         if w.suspend is not None:
             await w.suspend()
-        return w.wait_blocking(fs, return_when, via="async")
+        return w.wait_blocking(fs, return_when, via="async", timeout=timeout)
 
     def run(self, coro: Any) -> Any:
         return self._world.drive(coro)
@@ -458,11 +462,35 @@ class World:
         else:
             self.finish_future(f)
 
-    def wait_blocking(self, fs: Set[FakeFuture], return_when: str, via: str) -> Tuple[Set[Any], Set[Any]]:
+    def wait_blocking(self, fs: Set[FakeFuture], return_when: str, via: str, timeout: Any = None) -> Tuple[Set[Any], Set[Any]]:
+        import concurrent.futures as cf
+
         c = self.c
-        for f in fs:
-            if not isinstance(f, FakeFuture):
+        if timeout is not None and timeout != 0:
+            raise HarnessError("a wait with a positive timeout is not modelled")
+        # futures the code under test completed by itself (concurrent.futures.Future().set_result(...)) are plain finished
+        # futures: a wait returns them at once
+        foreign = {f for f in fs if not isinstance(f, FakeFuture)}
+        for f in foreign:
+            if not (via == "conc" and isinstance(f, cf.Future) and f.done()):
                 raise HarnessError("waiting for an object that is not modelled: %r" % (f,))
+        if foreign:
+            fs = set(fs) - foreign
+            fake_done = {f for f in fs if f.finished}
+            self.event("wait", via, return_when, tuple(f.label for f in sorted(fs - fake_done, key=lambda f: f.uid)), ("<finished future>",) * len(foreign))
+            if return_when != ALL_COMPLETED or fake_done == fs:
+                for f in fake_done:
+                    self.observed_future(f)
+                return foreign | fake_done, fs - fake_done
+            done, pend = self.wait_blocking(fs, return_when, via)
+            return done | foreign, pend
+        if timeout == 0:
+            # a poll: only what already finished is returned, nothing finishes meanwhile
+            already = {f for f in fs if f.finished}
+            self.event("poll", via, tuple(f.label for f in sorted(fs - already, key=lambda f: f.uid)), tuple(f.label for f in already))
+            for f in already:
+                self.observed_future(f)
+            return already, fs - already
             if via == "async" and not isinstance(f, FakeTask) and f.kind != "async":
                 raise TypeError("asyncio.wait on a concurrent future")
         if via == "async":
@@ -536,7 +564,7 @@ class World:
         fs = set(fs)
         if not fs:
             return cf._base.DoneAndNotDoneFutures(set(), set())
-        done, not_done = self.wait_blocking(fs, return_when, via="conc")
+        done, not_done = self.wait_blocking(fs, return_when, via="conc", timeout=timeout)
         return cf._base.DoneAndNotDoneFutures(done, not_done)
 
     def drain_at_shutdown(self) -> None:
